@@ -328,6 +328,41 @@ fn fault_case(ctx: &mut Ctx, execdir: bool, ninv: usize, failing: u32, missing: 
     None
 }
 
+fn exhausted_budget_case(ctx: &mut Ctx, execdir: bool, fixed: bool) -> Option<(String, String)> {
+    let w = ctx.sbx.join("w");
+    let _ = crate::sandbox::force_remove(&w);
+    std::fs::create_dir_all(w.join("r/d")).ok()?;
+    for n in ["r/f1", "r/f2", "r/d/g"] {
+        std::fs::write(w.join(n), b"").ok()?;
+    }
+    let log = ctx.sbx.join(".mc-vrec.log");
+    let _ = std::fs::remove_file(&log);
+    let prim = if execdir { "-execdir" } else { "-exec" };
+    let mut argv: Vec<String> = vec!["r".into(), "-sorted".into(), "-type".into(), "f".into(), prim.into(), vrec(), log.to_string_lossy().to_string()];
+    if fixed {
+        argv.push("fixed-argument".into());
+    }
+    argv.extend(["{}".to_string(), "+".to_string()]);
+    let got = run_bin(ctx, &argv, &w, Some(512 * 1024), vec![("BALLAST".into(), "a".repeat(126_000))]);
+    let recs = vreclog::read(&log).unwrap_or_default();
+    ctx.rep.evaluations += 1;
+    ctx.rep.nontrivial += 1;
+    ctx.rep.count("exhausted_budget_cases", 1);
+    let tag = format!("{prim}, environment leaves no room");
+    let detail = format!("find {:?} with RLIMIT_STACK 512 KiB and 126000 bytes of environment: status {:?}, {} invocation(s) {:?}, stderr {:?}", argv, got.code, recs.len(), recs.iter().map(|r| r.args.iter().map(|a| lossy(a)).collect::<Vec<_>>()).collect::<Vec<_>>(), lossy(&got.err).chars().take(300).collect::<String>());
+    if got.panicked() || got.code.is_err() {
+        return Some((format!("C08 panic / crash [{tag}]"), detail));
+    }
+    let delivered: usize = recs.iter().map(|r| r.args.len() - usize::from(fixed)).sum();
+    if recs.iter().any(|r| r.args.len() == usize::from(fixed)) {
+        return Some((format!("C08 the command was run without any path [{tag}]"), detail));
+    }
+    if delivered < 3 && (got.code == Ok(0) || got.err.is_empty()) {
+        return Some((format!("C08 paths not delivered, yet exit status 0 / no diagnostic [{tag}]"), detail));
+    }
+    None
+}
+
 /// `-exec A {} + -exec B {} +` (or joined by ',') where A and B are "ok" (recorder, exit 0), "bad"
 /// (/bin/false) or "nostart" (missing command): exit status != 0 iff one of them is not ok, and the
 /// ok one still receives every path.
@@ -611,6 +646,20 @@ fn run(ctx: &mut Ctx) {
             }
         }
     }
+    // (iv) an environment that leaves (almost) no room: a 512 KiB stack and 126 000 bytes of
+    // environment. Whatever can still be passed must be passed correctly; what cannot must be
+    // diagnosed with a non-zero status — no panic, and never the command without its paths.
+    for execdir in [false, true] {
+        for fixed in [false, true] {
+            job += 1;
+            if !ctx.mine(job) {
+                continue;
+            }
+            if let Some((sig, detail)) = exhausted_budget_case(ctx, execdir, fixed) {
+                ctx.rep.violation(&sig, detail, json!({"prop":"C08","part":"exhausted","execdir":execdir,"fixed":fixed}));
+            }
+        }
+    }
     // (ii) forced batching
     let kib = 1024u64;
     let mut cases: Vec<(bool, usize, usize, usize, Option<u64>, u32)> = vec![];
@@ -653,6 +702,15 @@ fn run(ctx: &mut Ctx) {
 }
 
 fn replay(case: &Value, ctx: &mut Ctx) -> Option<String> {
+    if case["part"] == "exhausted" {
+        return match exhausted_budget_case(ctx, case["execdir"].as_bool()?, case["fixed"].as_bool()?) {
+            Some((sig, detail)) => {
+                ctx.rep.violation(&sig, detail, case.clone());
+                Some(sig)
+            }
+            None => None,
+        };
+    }
     let r = match case["part"].as_str()? {
         "small" => {
             let forest = tree::decode_forest(case["forest"].as_str()?)?;
